@@ -518,8 +518,15 @@ func deref(t types.Type) types.Type {
 
 func (tb *termBuilder) callTerm(c *ssa.CallCommon, v ssa.Value, in ssa.Instruction) *Term {
 	op, name := calleeName(c)
-	t := &Term{Op: op, Name: name, V: v, In: in}
 	if op == "invoke" {
+		// a method invoked on an interface-typed parameter of a helper introduced by a refactoring, where the call
+		// site passes a value of a concrete type, is that type's method — as it was before the statements moved
+		if m := tb.devirtualised(c); m != nil {
+			op, name = "call", short(m.String())
+		}
+	}
+	t := &Term{Op: op, Name: name, V: v, In: in}
+	if op == "invoke" || op == "call" && c.IsInvoke() {
 		t.Args = append(t.Args, tb.term(c.Value, in))
 	}
 	if op == "dyncall" {
@@ -540,6 +547,41 @@ func (tb *termBuilder) callTerm(c *ssa.CallCommon, v ssa.Value, in ssa.Instructi
 		}
 	}
 	return canonMustCodec(canonOrderCall(t))
+}
+
+func (tb *termBuilder) devirtualised(c *ssa.CallCommon) *ssa.Function {
+	v := c.Value
+	for i := 0; i < 4; i++ {
+		switch x := v.(type) {
+		case *ssa.ChangeInterface:
+			v = x.X
+			continue
+		case *ssa.Parameter:
+			site := helperSite(x.Parent())
+			if site == nil {
+				return nil
+			}
+			var arg ssa.Value
+			for k, p := range x.Parent().Params {
+				if p == x && k < len(site.Call.Args) {
+					arg = site.Call.Args[k]
+				}
+			}
+			if arg == nil {
+				return nil
+			}
+			v = arg
+			if mi, ok := v.(*ssa.MakeInterface); ok {
+				if types.IsInterface(mi.X.Type()) {
+					return nil
+				}
+				return tb.P.SSA.LookupMethod(mi.X.Type(), c.Method.Pkg(), c.Method.Name())
+			}
+			continue
+		}
+		return nil
+	}
+	return nil
 }
 
 // inlineTrivial: a call to a field getter (`func (v T) GetX() X { return v.X }`) is the field, and a call to a pure
@@ -1133,13 +1175,29 @@ func (tb *termBuilder) inlineNewHelper(c *ssa.Call, idx int, tuple bool) *Term {
 					succ = append(succ, nil)
 				}
 			}
-			if len(succ) == 1 && succ[0] != nil {
+			known := len(succ) > 0
+			for _, rt := range succ {
+				if rt == nil {
+					known = false
+				}
+			}
+			if known {
 				rets = succ
 			}
 		}
 	}
-	if len(rets) != 1 || idx >= len(rets[0].Results) {
+	if len(rets) == 0 || len(rets) > 6 || idx >= len(rets[0].Results) {
 		return nil
+	}
+	if len(rets) > 1 {
+		// an error or a verdict with several returns stays a call: the guards that test it are expanded into the
+		// helper's success condition instead (guard.go)
+		if ei, _ := errIndex(callee.Signature); ei == idx {
+			return nil
+		}
+		if bt, ok := callee.Signature.Results().At(idx).Type().Underlying().(*types.Basic); ok && bt.Kind() == types.Bool {
+			return nil
+		}
 	}
 	if !tuple && len(rets[0].Results) != 1 {
 		return nil
@@ -1156,8 +1214,23 @@ func (tb *termBuilder) inlineNewHelper(c *ssa.Call, idx int, tuple bool) *Term {
 	// the helper's parameters mean the arguments of THIS call while its return expression is rendered
 	prev, had := helperCtx[callee]
 	setHelperCtx(callee, c)
-	inner := &termBuilder{P: tb.P, stack: map[ssa.Value]bool{}, depth: tb.depth + 1}
-	t := inner.term(rets[0].Results[idx], rets[0]).Subst(m)
+	// several returns (`if h == 0 { return latest }; return h`): the value is one of them, as the phi of the
+	// written-out if statement is
+	var alts []*Term
+	seen := map[string]bool{}
+	for _, rt := range rets {
+		inner := &termBuilder{P: tb.P, stack: map[ssa.Value]bool{}, depth: tb.depth + 1}
+		a := inner.term(rt.Results[idx], rt).Subst(m)
+		if k := a.String(); !seen[k] {
+			seen[k] = true
+			alts = append(alts, a)
+		}
+	}
+	t := alts[0]
+	if len(alts) > 1 {
+		sort.Slice(alts, func(i, j int) bool { return alts[i].String() < alts[j].String() })
+		t = &Term{Op: "phi", Args: alts, V: c, In: c}
+	}
 	if had {
 		helperCtx[callee] = prev
 	} else {
